@@ -194,6 +194,38 @@ func checkC17(c *core.Ctx) {
 			}
 		}
 	}
+	// the optimizer keeps the learning rate it was constructed with, whatever
+	// the caller does with the config struct afterwards
+	c.Case("config/decoupled", true, func() core.Verdict {
+		conf := &optimizers.SGDConfig{LearningRate: 0.5}
+		opt1 := optimizers.NewSGD(conf)
+		conf.LearningRate = -0.25
+		opt2 := optimizers.NewSGD(conf)
+		conf.LearningRate = 7
+		for k, oe := range []struct {
+			o  *optimizers.SGD
+			lr float64
+		}{{opt1, 0.5}, {opt2, -0.25}} {
+			w0 := enum.Generic([]int{3}, 560, 0.5, 3, true)
+			cc := enum.Generic([]int{3}, 561, 0.5, 3, true)
+			w := rt.Make(w0, true)
+			y, _ := w.Mul(rt.Make(cc, false))
+			if err := tensor.BackPropagate(y); err != nil {
+				return core.Fail("BackPropagate: %v", err)
+			}
+			if err := oe.o.Update(&w); err != nil {
+				return core.Fail("Update: %v", err)
+			}
+			exp := ref.New([]int{3})
+			for i := range exp.V {
+				exp.V[i] = w0.V[i] - oe.lr*cc.V[i]
+			}
+			if ok, msg := core.Close(rt.Read(w), exp, 10); !ok {
+				return core.Fail("optimizer %d was constructed with learning rate %v; after the caller changed its config struct: %s", k+1, oe.lr, msg)
+			}
+		}
+		return core.Pass()
+	})
 	// ONE optimizer object updating tensors of different shapes one after the other
 	for li, l := range c17LRs {
 		l := l
@@ -376,7 +408,8 @@ func c18Alphabet(thorough bool) []initCall {
 		initCall{Name: "RandU", A: -1, B: 3}, initCall{Name: "RandU", A: 0, B: 1e-3},
 		initCall{Name: "RandN", A: 0, B: 0.05}, initCall{Name: "RandN", A: 1, B: 2},
 		initCall{Name: "Full", Nil: true}, initCall{Name: "Full", A: 2.5},
-		initCall{Name: "Uniform", Nil: true}, initCall{Name: "Uniform", A: -1, B: 3},
+		initCall{Name: "Uniform", Nil: true}, initCall{Name: "Uniform", A: -1, B: 3}, initCall{Name: "Uniform", A: 0, B: 1}, initCall{Name: "Uniform", A: -2, B: 0},
+		initCall{Name: "Normal", A: 0, B: 1}, initCall{Name: "Full", A: 0},
 		initCall{Name: "Normal", Nil: true}, initCall{Name: "Normal", A: 1, B: 2},
 	)
 	fans := []int{1, 2, 3}
@@ -548,6 +581,69 @@ func checkC18(c *core.Ctx) {
 			})
 		}
 	}
+	// configs are decoupled: mutating the config struct after construction
+	// does not change what the initializer draws
+	c.Case("config/decoupled", true, func() core.Verdict {
+		uc := &initializers.UniformConfig{Lower: -1, Upper: 3}
+		u, err1 := initializers.NewUniform(uc)
+		uc.Lower, uc.Upper = 10, 20
+		nc := &initializers.NormalConfig{Mean: 1, StdDev: 2}
+		n, err2 := initializers.NewNormal(nc)
+		nc.Mean, nc.StdDev = -50, 0.001
+		hc := &initializers.HeUniformConfig{FanIn: 3}
+		h, err3 := initializers.NewHeUniform(hc)
+		hc.FanIn = 600
+		xc := &initializers.XavierNormalConfig{FanIn: 1, FanOut: 1}
+		x, err4 := initializers.NewXavierNormal(xc)
+		xc.FanIn, xc.FanOut = 500, 500
+		fc := &initializers.FullConfig{Value: 2.5}
+		f := initializers.NewFull(fc)
+		fc.Value = -9
+		if err1 != nil || err2 != nil || err3 != nil || err4 != nil {
+			return core.Fail("constructors: %v %v %v %v", err1, err2, err3, err4)
+		}
+		xrand.Seed(seed + 9)
+		src := xrand.New(xrand.NewSource(seed + 9))
+		type ini interface {
+			Init([]int) (tensor.Tensor, error)
+		}
+		for k, e := range []struct {
+			in   ini
+			kind string
+			a, b float64
+		}{{u, "U", -1, 3}, {n, "N", 1, 2}, {h, "U", -math.Sqrt(2), math.Sqrt(2)}, {x, "N", 0, 1}, {f, "C", 2.5, 0}} {
+			t, err := e.in.Init([]int{5})
+			if err != nil {
+				return core.Fail("Init: %v", err)
+			}
+			got := append([]float64{}, rt.Read(t).V...)
+			exp := make([]float64, 5)
+			for i := range exp {
+				switch e.kind {
+				case "C":
+					exp[i] = e.a
+				case "U":
+					exp[i] = distuv.Uniform{Min: e.a, Max: e.b, Src: src}.Rand()
+				case "N":
+					exp[i] = distuv.Normal{Mu: e.a, Sigma: e.b, Src: src}.Rand()
+				}
+			}
+			sort.Float64s(got)
+			sort.Float64s(exp)
+			for i := range exp {
+				if got[i] != exp[i] {
+					// not the seeded stream: judge the support / scale only
+					for _, v := range got {
+						if (e.kind == "U" && !(v >= e.a && v < e.b)) || (e.kind == "N" && math.Abs(v-e.a) > 8*e.b) || (e.kind == "C" && v != e.a) {
+							return core.Fail("initializer %d drew %v after the caller changed its config struct (constructed with %s %v %v)", k, v, e.kind, e.a, e.b)
+						}
+					}
+					break
+				}
+			}
+		}
+		return core.Pass()
+	})
 	// object reuse: ONE initializer object per configuration serves the whole
 	// sequence (same configuration, different shapes; interleaved with others)
 	var byCfg [][]initCall
